@@ -217,6 +217,10 @@ def materialise(spec):
     names = names_of(spec)
     body = "{" + ", ".join(f"{p!r}: {p}" for p in names) + "}"
     kind = spec["kind"]
+    # the class of a callable instance / a wrapped class also annotates ATTRIBUTES named like parameters, with other types (state
+    # kept under the parameter's name after conversion): a parameter is converted by ITS annotation, not by the attribute's
+    ns["T_attr"] = type("Tag_attr", (str,), {})
+    attr_ann = "".join(f"    {p}: T_attr\n" for p in names if p not in (spec["va"], spec["vk"]))
     if kind == "function":
         _exec(f"def f({param_src(spec, False)}):\n    'doc of f'\n    return REC({body})\n", ns)
         target = ns["f"]
@@ -224,11 +228,11 @@ def materialise(spec):
         _exec(f"class K:\n    'doc of K'\n    def m({param_src(spec, True)}):\n        'doc of m'\n        return REC({body})\n", ns)
         target = ns["K"]().m
     elif kind == "callable":
-        _exec(f"class K:\n    'doc of K'\n    def __call__({param_src(spec, True)}):\n        'doc of call'\n"
+        _exec(f"class K:\n    'doc of K'\n{attr_ann}    def __call__({param_src(spec, True)}):\n        'doc of call'\n"
              f"        return REC({body})\n", ns)
         target = ns["K"]()
     else:
-        _exec(f"class K:\n    'doc of K'\n    def __init__({param_src(spec, True)}):\n        'doc of init'\n"
+        _exec(f"class K:\n    'doc of K'\n{attr_ann}    def __init__({param_src(spec, True)}):\n        'doc of init'\n"
              f"        self.rec = REC({body})\n", ns)
         target = ns["K"]
 
